@@ -75,6 +75,7 @@ return {ok: cnt.get(), x: x}`))
 	mm.AddBuiltinModule("strings", ugostrings.Module)
 	mm.AddBuiltinModule("time", ugotime.Module)
 	mm.AddBuiltinModule("vmod", conc.VMod())
+	conc.AddObjMods(mm)
 	return mm
 }
 
@@ -447,8 +448,16 @@ v.by[0] = 9
 v.deep.a[0].x = 4
 v.deep.a[1][0] = 8
 v.sm.k = 2
+v.esm.z = 3
 v.n += 1
-return [v.n, v.arr, v.m.k, v.by, v.deep.a[0].x, v.deep.a[1], v.sm.k]
+oa := import("objarr")
+oa[0] += 10
+ob := import("objbytes")
+ob[1] = 77
+os := import("objsync")
+os.k = a0
+os.added = 1
+return [v.n, v.arr, v.m.k, v.by, v.deep.a[0].x, v.deep.a[1], v.sm.k, len(v.esm), oa, ob, os.k]
 `
 	case "half-import":
 		h.Host = true
@@ -537,7 +546,11 @@ return [old, typeName(s.ToUpper), s.Repeat("ab", 2), t.Second, s.__module_name__
 	case "container-mod":
 		h.Host = true
 		h.Src = hhdr + `v := import("vmod")
-before := [v.n, v.arr[0], v.arr[2], v.m.k, v.m.added, v.by[0], v.deep.a[0].x, v.deep.a[1][0], v.sm.k]
+oa := import("objarr")
+ob := import("objbytes")
+os := import("objsync")
+before := [v.n, v.arr[0], v.arr[2], v.m.k, v.m.added, v.by[0], v.deep.a[0].x, v.deep.a[1][0], v.sm.k, len(v.esm), v.esm.z, oa, ob, os.k, os.added]
+oa[1] += 1
 v.arr[1] += 1
 v.by[1] = 3
 v.m.k += 1
@@ -803,6 +816,13 @@ func init() {
 		Skip: histSkip,
 		Run: func(c *Ctx) {
 			mainClosureOracle(c)
+			// a run on a NEW VM must not depend on another VM having been aborted while it held a pooled
+			// child VM (strings.Map -> Invoker.Acquire/Release -> sync.Pool)
+			if pr := conc.AbortIsolation(1 + c.Scale/10); pr != "" {
+				c.Violation(PropViolation{Property: "C07", What: "a run's outcome depends on the history of OTHER VMs: " + pr,
+					Input: "strings.Map(func(ch) { for i := 0; i < n; i++ {}; return ch }, s) on several VMs, one aborted (conc.AbortIsolation)", Sig: "C07:abort-leaks-to-later-run"})
+			}
+			c.dist["oracle:abort-isolation"]++
 			c.Rule("C07: histories of 0..8 earlier runs on ONE VM (gen.Program scripts; uncaught errors thrown under nested try/finally frames; frame overflow; stack-slot overflow = Go index panic, escaping or recovered; overflow caught inside the recursion; abort at a chosen instruction through the H1 hook; large stack residue; impl-only histories add host callbacks that panic / index out of range / return errors / call vm.Abort(), source modules with mutable state incl. a module whose body fails half-way, builtin modules strings/time mutated by the script, callbacks through pooled child VMs) each optionally preceded by Clear()/SetBytecode or re-running the same Bytecode; then Clear() and/or SetBytecode and the observed script (gen.Program, uninitialised locals, deep recursion, closures, try/catch/finally, module state, builtin-module keys, callbacks). Oracle: observed run on the used VM == on a new VM (outcome, instruction count, H1 trace hash, final globals); two new-VM runs equal; encoder bytes and a structural dump (incl. object identities) of every Bytecode unchanged. Model: the same history chained on one Lean model state through clear/setBytecode/runFrom (every run's outcome, count, trace hash, globals + the model's own new-VM run); distinct = (kind of last earlier run, reset, outcome class, length, trace hash) of model-compared histories")
 			n := 260 * c.Scale
 			for i := 0; i < n; i++ {
